@@ -23,6 +23,7 @@ def known_match(kf, prop, text):
 def run_property(prop, tier, seed):
     t0 = time.time()
     rc = RECIPES[prop]
+    os.environ["VERIF_TIER"] = tier        # generators deepen some enumerations in the thorough tier
     vlib.ensure_dirs()
     bt = vlib.build_harness()
     reasons = rc.get("reasons", ("value", "panic"))
